@@ -236,8 +236,12 @@ def cross_crs(run):
                 if got != (1 if inside else 0):
                     # does the source lie inside the *bounding box* of the reference re-projected into the source CRS?
                     # (that box is what the code tests against; it is larger than the reference footprint - finding D15)
-                    wl, wb, wr, wt = transform_bounds(rcrs, scrs, *rb, densify_pts=21)
-                    in_box = wl <= sx0 and sx0 + sw * sres <= wr and wb <= sy0 - sh * sres and sy0 <= wt
+                    # (the box GDAL itself gives the re-projected reference: a WarpedVRT in the source CRS, as the code builds)
+                    from rasterio.vrt import WarpedVRT
+                    with rio.open(rp) as rds, WarpedVRT(rds, crs=scrs) as vrt:
+                        wl, wb, wr, wt = vrt.bounds
+                    tol = 1e-6 * max(sres, rres)
+                    in_box = wl - tol <= sx0 and sx0 + sw * sres <= wr + tol and wb - tol <= sy0 - sh * sres and sy0 <= wt + tol
                     what = (f'source overhanging the reference ({place}) in another CRS ({name}) was accepted' if got == 1 else
                             f'source contained in the reference ({place}) in another CRS ({name}) was rejected' if got == 0 else
                             f'construction raised {got}')
